@@ -580,6 +580,9 @@ async fn abandoned_gadget(handle: &SyncHandle, keys: &Keys) -> anyhow::Result<Ga
     let abandoned_write = tokio::time::timeout(Duration::from_millis(30), handle.insert_local(nsid, author.id(), b"zz-g3".to_vec().into(), hash, len)).await;
     let abandoned_sync = tokio::time::timeout(Duration::from_millis(30), handle.set_sync(nsid, true)).await;
     let really_abandoned = abandoned_write.is_err() && abandoned_sync.is_err();
+    // the caller of the write that is waiting for room in the channel gives up as well
+    w2.abort();
+    let _ = w2.await;
     // now the subscriber reads
     let drainer = tokio::spawn(async move {
         let mut n = 0usize;
@@ -591,8 +594,7 @@ async fn abandoned_gadget(handle: &SyncHandle, keys: &Keys) -> anyhow::Result<Ga
         }
         (n, rx)
     });
-    let w2 = w2.await.map_err(|e| anyhow::anyhow!("writer: {e}"))?;
-    g.lines.push((format!("act 1 localq {}", honest_fp_tok(&entry(b"zz-g2"))), match w2 { Ok(()) => "inserted".into(), Err(s) => format!("err:{s}") }));
+    g.lines.push((format!("actdrop 1 localq {}", honest_fp_tok(&entry(b"zz-g2"))), "abandoned".into()));
     g.lines.push((format!("actdrop 1 localq {}", honest_fp_tok(&entry(b"zz-g3"))), "abandoned".into()));
     g.lines.push((format!("actdrop 1 setsync {nsh} 1"), "abandoned".into()));
     // later requests reflect the abandoned ones
@@ -605,11 +607,35 @@ async fn abandoned_gadget(handle: &SyncHandle, keys: &Keys) -> anyhow::Result<Ga
     let state = match handle.get_state(nsid).await { Ok(s) => format!("state {} {} {}", s.sync as u8, s.subscribers, s.handles), Err(e) => err_kind(&e) };
     let (_n, rx) = drainer.await.map_err(|e| anyhow::anyhow!("drainer: {e}"))?;
     g.lines.push((format!("act 1 state {nsh}"), state.clone()));
+    // the write that was waiting for room when its caller gave up is applied as well
+    let got2 = match handle.get_exact(nsid, author.id(), b"zz-g2".to_vec().into(), false).await {
+        Ok(Some(e)) => format!("some {}", with_fp(stored_tok(&e), &e)),
+        Ok(None) => "none".into(),
+        Err(e) => err_kind(&e),
+    };
+    g.lines.push((format!("act 1 getexact {nsh} {} {} 0", hex(author.id().as_bytes()), hex(b"zz-g2")), got2.clone()));
     if really_abandoned {
         g.oracles.push(Line::oracle(
             "sconst abandoned-requests-are-reflected-by-later-replies",
-            if got.starts_with("some") && state.starts_with("state 1") { "abandoned-requests-are-reflected-by-later-replies".to_string() } else { format!("later-replies-miss-abandoned-requests:{}:{}", got.split(' ').next().unwrap_or(""), state.replace(' ', "-")) },
+            if got.starts_with("some") && got2.starts_with("some") && state.starts_with("state 1") { "abandoned-requests-are-reflected-by-later-replies".to_string() } else { format!("later-replies-miss-abandoned-requests:{}:{}", got.split(' ').next().unwrap_or(""), state.replace(' ', "-")) },
         ));
+    }
+    // an additional open whose subscriber has already gone away: accepted or refused, it must not be half done
+    {
+        let handles_of = |s: &str| s.rsplit(' ').next().and_then(|h| h.parse::<usize>().ok());
+        let (dtx, drx) = async_channel::unbounded::<iroh_docs::sync::Event>();
+        drop(drx);
+        let opened = match handle.open(nsid, OpenOpts::default().sync().subscribe(dtx)).await { Ok(()) => "ok".to_string(), Err(e) => err_kind(&e) };
+        g.lines.push((format!("act 1 open {nsh} 1 1"), opened.clone()));
+        let state2 = match handle.get_state(nsid).await { Ok(s) => format!("state {} {} {}", s.sync as u8, s.subscribers, s.handles), Err(e) => err_kind(&e) };
+        g.lines.push((format!("act 1 state {nsh}"), state2.clone()));
+        if let (Some(h0), Some(h1)) = (handles_of(&state), handles_of(&state2)) {
+            let ok = if opened == "ok" { h1 == h0 + 1 } else { h1 == h0 };
+            g.oracles.push(Line::oracle("sconst an-open-adds-a-handle-iff-it-succeeds", if ok { "an-open-adds-a-handle-iff-it-succeeds".to_string() } else { format!("open-answered-{}-handles-{h0}-to-{h1}", opened.replace([' ', ':'], "-")) }));
+        }
+        if opened == "ok" {
+            g.lines.push((format!("act 1 close {nsh}"), match handle.close(nsid).await { Ok(b) => format!("ok {}", b as u8), Err(e) => err_kind(&e) }));
+        }
     }
     // leave the document as the clients left it, but for one more handle that is released here
     let _ = handle.unsubscribe(nsid, tx).await;
